@@ -8,7 +8,6 @@ VARIABLE l
 Tr == JsonDeserialize(IOEnv.TRACE_FILE)
 \* known findings: triggers are predicates over the input spelling (and the option position)
 Triggers(e) == (IF RespelledRedirectKey(e.x) THEN {"RespelledRedirectKey"} ELSE {})
-               \cup (IF PlatformTrailingSlash(e.x) THEN {"PlatformTrailingSlash"} ELSE {})
 NoAuthPort(f) == LET sp == Split(<<47, 47>> \o f) np == NetParts(sp.netloc) IN ~HasProtocol(f) /\ ~np.hasuser /\ np.port = <<>>
 Failing(e, base) ==
   IF e.exc # "" THEN {"raises"} ELSE
